@@ -29,7 +29,7 @@ from checks import C01 as c01
 import vlib
 
 MAP_FIELDS = {"labels", "sel", "nsSel"}
-ALL_ARCHS = "{" + ",".join(str(i) for i in range(1, 37)) + "}"
+ALL_ARCHS = "{" + ",".join(str(i) for i in range(1, 39)) + "}"
 ALL_LAYOUTS = "{" + ",".join(str(i) for i in range(0, 15)) + "}"
 FLAGS = ("W_AllDomains = TRUE  W_Inverse = TRUE  W_Certain = TRUE  W_Bootstrap = TRUE  W_Slack = 0  W_Exclude = TRUE  "
          "W_MatchKeys = TRUE  W_MinDomains = TRUE  W_Policies = TRUE  W_Guard = TRUE")
@@ -47,14 +47,16 @@ THEMES = [
     "NPods = 3  Archs = {7,18,30,32}  Layouts = {3,13}  MaxClaims = 2",          # constraints carried by pods they do not select
     "NPods = 3  Archs = {7,33,34,35}  Layouts = {0,14}  MaxClaims = 2",          # spread pods with different required OR-terms
     "NPods = 3  Archs = {7,11,33,36}  Layouts = {3,14}  MaxClaims = 2",          # ... under both nodeAffinityPolicy values
+    "NPods = 3  Archs = {7,24,37,38}  Layouts = {0,14}  MaxClaims = 2",          # minDomains with node-affinity-restricted pods
 ]
 SHARED_GEN = "NPods = 2  Archs = {25,26,27,28,29,30,31,32,7}  Layouts = {0,10,11,12,13}  MaxClaims = 2"
+MIND_GEN = "NPods = 3  Archs = {24,37,38}  Layouts = {0,14}  MaxClaims = 2"      # minDomains with node-affinity-restricted pods (always replayed)
 ORTERM_GEN = "NPods = 3  Archs = {7,33,34,35,36}  Layouts = {0,3,14}  MaxClaims = 2"
 SCOPE = {
     # mc: exhaustive closed-model scopes (+ THEMES); gen: scenario enumeration scopes (sample size, None = all; orders "one" random / "all");
     # explore: explorer scenarios per profile
     "quick": dict(mc=["NPods = 2  Archs = {2,5,8,19,20,21}  Layouts = {1,4,5,9}  MaxClaims = 2"], themes=2,
-                  gen=[(SHARED_GEN, None, "all"), (ORTERM_GEN, 60, "all"),
+                  gen=[(SHARED_GEN, None, "all"), (MIND_GEN, None, "all"), (ORTERM_GEN, 60, "all"),
                        ("NPods = 2  Archs = %s  Layouts = %s  MaxClaims = 2" % (ALL_ARCHS, ALL_LAYOUTS), 450, "one"),
                        ("NPods = 3  Archs = {1,3,4,5,6,7,9,10,11,14,18,20,25,26,28,29}  Layouts = {0,1,2,3,4,6,10,12}  MaxClaims = 2", 200, "one")],
                   explore={"topo": 700, "interpod": 100}),
@@ -69,7 +71,7 @@ SCOPE = {
                      gen=[("NPods = 2  Archs = %s  Layouts = %s  MaxClaims = 2" % (ALL_ARCHS, ALL_LAYOUTS), None, "all"),
                           ("NPods = 3  Archs = %s  Layouts = %s  MaxClaims = 2" % (ALL_ARCHS, ALL_LAYOUTS), 9000, "all"),
                           ("NPods = 3  Archs = {25,26,27,28,29,30,31,32,7,18}  Layouts = {0,10,11,12,13}  MaxClaims = 2", None, "all"),
-                          (ORTERM_GEN, None, "all"),
+                          (ORTERM_GEN, None, "all"), (MIND_GEN, None, "all"),
                           ("NPods = 4  Archs = {1,3,4,5,6,7,9,10,11,14,18,20,26,28}  Layouts = {0,1,2,3,4,6,10}  MaxClaims = 2", 1500, "all")],
                      explore={"topo": 12000, "interpod": 2000}),
 }
@@ -158,8 +160,18 @@ def tlc_weak(run, w):
     return "no violation" + (" (%s)" % m.group(1) if m else "")
 
 
+def write_known(run):
+    """the deviations the classification may grant = exactly the C02 findings still listed as `known`"""
+    ids = sorted(k["id"] for k in run.known if k.get("property") == "C02" and k.get("status") == "known")
+    with open(os.path.join(run.specdir, "TopologyKnown.tla"), "w") as f:
+        f.write("--------------------------- MODULE TopologyKnown ---------------------------\n"
+                "KnownCauses == {%s}\n=============================================================================\n"
+                % ", ".join('"%s"' % i for i in ids))
+
+
 def judge(run, files, par=None):
     """trace validation: admission-time guards (hook H1) + anti-affinity on Results, then the order-free end-state forms alone"""
+    write_known(run)
     hooked = bool(run.extra_cov.get("hook_h1_events"))
     twins = {}
     for f in files:         # the second pass reads hard links of the same traces (run.validate writes <trace>.viol.json next to its input)
@@ -244,7 +256,7 @@ def check(run):
     # 2. TLC-enumerated scenarios x dequeue orders x options
     scenarios, total_enum, replayed = [], 0, 0
     exhaustive = True
-    gens = tier["gen"] if not skip_model else tier["gen"][:3]
+    gens = tier["gen"] if not skip_model else tier["gen"][:4]
     for i, (consts, _, _) in enumerate(gens):
         write_cfg(run, "Topology_Gen_run%d.cfg" % i, consts, "GenSpec", ["GenPrint"])
     with cf.ThreadPoolExecutor(max_workers=len(gens)) as gx:
